@@ -30,7 +30,7 @@ type UserPub struct {
 // CredSpec is one --credentials entry: user[:password]@host:port, host/port possibly wildcards.
 type CredSpec struct {
 	User    UserPub `json:"user"`
-	Target  string  `json:"target"`  // "origin" | "upstream" | "other"
+	Target  string  `json:"target"`  // "origin" | "upstream" | "other"; with a PAC script: "pac-http" | "pac-socks5" (the scripted proxies) | "gateway" | "gateway2" (SOCKS/SOCKS4 gateways)
 	Pattern string  `json:"pattern"` // "exact" | "any-host" (*:port) | "any-port" (host:*) | "global" (*:*)
 }
 
@@ -60,7 +60,8 @@ type Case struct {
 	BasicAuth    *UserPub `json:"basic_auth,omitempty"`
 	APIBasicAuth *UserPub `json:"api_basic_auth,omitempty"`
 	// Upstream: none | userinfo (credentials inside --proxy) | credentials (--proxy without
-	// userinfo, a --credentials entry for the proxy's host:port) | nouser
+	// userinfo, a --credentials entry for the proxy's host:port) | nouser | pac (--pac instead of
+	// --proxy: the script selects the proxy, the --credentials table supplies its credentials; see pac.go)
 	Upstream     string     `json:"upstream"`
 	UpstreamUser *UserPub   `json:"upstream_user,omitempty"`
 	ProxyScheme  bool       `json:"proxy_scheme"` // write "http://" in front of the --proxy value
@@ -75,6 +76,8 @@ type Case struct {
 	UpstreamTLS bool `json:"upstream_tls,omitempty"`
 	// Stall: the fault phase also injects stalls (needs a short --http-response-header-timeout)
 	Stall bool `json:"stall,omitempty"`
+	// PAC: the script and the form --pac is given in (Upstream == "pac")
+	PAC *PACSpec `json:"pac,omitempty"`
 
 	// kind "startfail": the configuration is syntactically plausible but start-up fails
 	// (see startFaults in startfail.go); FaultIndex = entry of a slice flag the fault sits in,
@@ -296,6 +299,12 @@ type plan struct {
 	UpstreamUser, UpstreamPass string
 	UpstreamAuth               string // expected Proxy-Authorization at the upstream ("" if none)
 	OriginAuth                 string // expected Authorization at the origin ("" if none)
+	// with a PAC script (pac.go)
+	Endpoints   endpoints
+	PACScript   string
+	PACRaw      string // the value of --pac
+	Stdin       string // the script when --pac - reads it from standard input
+	CredEntries []credEntry
 }
 
 func hostPort(addr string) (string, string) {
@@ -348,13 +357,16 @@ func envName(flag string) string {
 // front of the shared origin and upstream proxy.
 type endpoints struct {
 	Origin, Upstream string
+	// with a PAC script: the scripted HTTP(S) proxy, the scripted SOCKS5 proxy (Upstream is the one the
+	// script answers by default), the server the script is fetched from (--pac http://…)
+	HTTPProxy, Socks5, PACServer string
 }
 
 // assemble turns a case and one of its secret assignments into a concrete invocation.
 // dir is the run directory; paddr/aaddr are the listen addresses to request.
 func assemble(c *Case, k int, ep endpoints, dir, paddr, aaddr string) *plan {
 	s := c.Secrets[k]
-	p := &plan{Files: map[string][]byte{}, OriginAddr: ep.Origin, UpstreamAddr: ep.Upstream}
+	p := &plan{Files: map[string][]byte{}, OriginAddr: ep.Origin, UpstreamAddr: ep.Upstream, Endpoints: ep}
 	add := func(flag string, slice bool, raws ...string) {
 		p.Settings = append(p.Settings, setting{Flag: flag, Slice: slice, Raws: raws})
 	}
@@ -370,7 +382,7 @@ func assemble(c *Case, k int, ep endpoints, dir, paddr, aaddr string) *plan {
 			p.Secrets = append(p.Secrets, secretItem{Flag: "api-basic-auth", User: c.APIBasicAuth.User, Secret: s.APIBasicAuth})
 		}
 	}
-	if c.Upstream != "none" {
+	if c.Upstream != "none" && c.Upstream != "pac" {
 		v := faultyProxyHost(c, ep.Upstream)
 		if c.Upstream == "userinfo" {
 			v = rawUser(*c.UpstreamUser, s.Proxy) + "@" + v
@@ -400,6 +412,14 @@ func assemble(c *Case, k int, ep endpoints, dir, paddr, aaddr string) *plan {
 				addr = ep.Origin
 			case "upstream":
 				addr = ep.Upstream
+			case "pac-http":
+				addr = ep.HTTPProxy
+			case "pac-socks5":
+				addr = ep.Socks5
+			case "gateway":
+				addr = pacGateway
+			case "gateway2":
+				addr = pacGateway2
 			default:
 				addr = "127.0.0.1:9"
 			}
@@ -426,6 +446,7 @@ func assemble(c *Case, k int, ep endpoints, dir, paddr, aaddr string) *plan {
 				pw = s.Creds[i]
 				p.Secrets = append(p.Secrets, secretItem{Flag: "credentials", Index: i, User: cr.User.User, Secret: pw})
 			}
+			p.CredEntries = append(p.CredEntries, credEntry{Host: h, Port: port, User: cr.User.User, Pass: pw, HasPass: cr.User.HasPass})
 			if cr.Target == "upstream" && c.Upstream == "credentials" {
 				p.UpstreamUser, p.UpstreamPass, p.UpstreamAuth = cr.User.User, pw, basic(cr.User.User, pw)
 			}
@@ -434,6 +455,13 @@ func assemble(c *Case, k int, ep endpoints, dir, paddr, aaddr string) *plan {
 			}
 		}
 		add("credentials", true, raws...)
+	}
+	if c.PAC != nil {
+		// which entry applies to an endpoint is decided by the matcher's precedence
+		p.UpstreamAuth, p.OriginAuth = p.authToward(ep.Upstream, ep.Upstream == ep.Socks5), p.authToward(ep.Origin, false)
+		if e := matchCred(p.CredEntries, ep.Upstream); e != nil {
+			p.UpstreamUser, p.UpstreamPass = e.User, e.Pass
+		}
 	}
 	fileFlag := func(flag, style, name string, content []byte, private bool) {
 		if style == "none" {
@@ -476,7 +504,7 @@ func assemble(c *Case, k int, ep endpoints, dir, paddr, aaddr string) *plan {
 
 	// non-secret flags always travel on the command line
 	p.Args = []string{"run", "--address", paddr, "--api-address", aaddr, "--proxy-localhost", "allow",
-		"--log-level", c.Level, "--log-format", c.Format, "--log-http", c.LogHTTP, "--name", "fwd-c19",
+		"--log-level", c.Level, "--log-format", c.Format, "--log-http", c.LogHTTP, "--name", proxyName,
 		"--http-dial-attempts", "1", "--shutdown-timeout", "2s", "--api-shutdown-timeout", "2s"}
 	if c.LogTo == "file" {
 		p.Args = append(p.Args, "--log-file", dir+"/forwarder.log")
@@ -484,7 +512,7 @@ func assemble(c *Case, k int, ep endpoints, dir, paddr, aaddr string) *plan {
 	if c.TLSCert != "none" {
 		p.Args = append(p.Args, "--protocol", "https")
 	}
-	if c.MITM != "none" || c.UpstreamTLS {
+	if c.MITM != "none" || c.UpstreamTLS || c.PAC != nil {
 		// the fault fronts present a throw-away certificate
 		p.Args = append(p.Args, "--insecure")
 	}
@@ -497,6 +525,9 @@ func assemble(c *Case, k int, ep endpoints, dir, paddr, aaddr string) *plan {
 		p.Args = append(p.Args, "--pac", "data:base64,"+base64.StdEncoding.EncodeToString([]byte(js)))
 	case "pac-and-proxy":
 		p.Args = append(p.Args, "--pac", "data:base64,"+base64.StdEncoding.EncodeToString([]byte(`function FindProxyForURL(url, host) { return "DIRECT"; }`)))
+	}
+	if c.PAC != nil {
+		pacArgs(c, ep, dir, p)
 	}
 	p.Env = []string{"PATH=/usr/bin:/bin", "HOME=" + dir, "GOMAXPROCS=4"}
 	fileVals := map[string]any{}
